@@ -44,6 +44,7 @@ type Unit struct {
 	Split     map[string]int                        `json:"split"`
 	NoInit    bool                                  `json:"noinit"`
 	InitPkgs  []string                              `json:"initpkgs"`
+	ConcRet   []string                              `json:"concret"`
 	Warm      string                                `json:"warm"`
 	Covers    []string                              `json:"covers"`
 	BudgetOK  bool                                  `json:"budget_ok"`
@@ -454,7 +455,7 @@ func checkMain(args []string) int {
 		s.aggs[u.Name] = a
 		s.order = append(s.order, u.Name)
 		for _, as := range assigns {
-			j := &Job{Unit: u.Name, Harness: u.Harness, Sets: as, MaxSteps: u.MaxSteps, MaxDepth: u.MaxDepth, TimeoutMs: u.TimeoutMs, NoInit: u.NoInit, InitPkgs: u.InitPkgs, Warm: u.Warm, MaxConc: u.MaxConc}
+			j := &Job{Unit: u.Name, Harness: u.Harness, Sets: as, MaxSteps: u.MaxSteps, MaxDepth: u.MaxDepth, TimeoutMs: u.TimeoutMs, NoInit: u.NoInit, InitPkgs: u.InitPkgs, Warm: u.Warm, MaxConc: u.MaxConc, ConcRet: u.ConcRet}
 			j.MaxPaths, _ = tierVal(u.MaxPaths, tier)
 			j.Frontier, _ = tierVal(u.Split, tier)
 			j.DeadlineS, _ = tierVal(u.DeadlineS, tier)
